@@ -49,7 +49,8 @@ def scenarios(ctx):
                                                                     feed=[0.7, 2], **tail), K))
     # the final commit of stop() answered REBALANCE_IN_PROGRESS (one error reply placed anywhere, then stop placed anywhere)
     out.append(("group-two-commit-rebalance-in-progress", scen_group.make,
-                gc.two_members(**dict(tail, errs={"OffsetCommit": [27]}, fault_apis=["OffsetCommit"], faults=["err"])), [{"k": 1, "f": 1}]))
+                gc.two_members(**dict(tail, errs={"OffsetCommit": [27]}, fault_apis=["OffsetCommit"], faults=["err"], k_mid=False, explore_until=1.9)),
+                [{"k": 1, "f": 1}]))
     if not quick:
         out.append(("group-two-faults", scen_group.make, gc.two_members(**dict(tail, errs=gc.errs())), KT))
     base_f = {"faults": ["drop-before", "drop-after", "lose", "err"], "errs": {"Produce": [6, 7]}, "fault_apis": ["Produce", "Metadata"],
